@@ -71,7 +71,7 @@ func (g *gen) loadRepo() {
 	}
 }
 
-var fileNames = []string{"foo/v1/a.j5s", "foo/v1/a.j5s", "foo/v1/a.j5s", "a.j5s", "foo/bar/v1/x.j5s", "/abs/v1/f.j5s", "", "dir/", "a//b/c.j5s", "é/v1/ü.j5s", "./x/y.j5s"}
+var fileNames = []string{"foo/v1/a.j5s", "foo/v1/a.j5s", "foo/v1/a.j5s", "a.j5s", "foo/bar/v1/x.j5s", "/abs/v1/f.j5s", "", "dir/", "a//b/c.j5s", "é/v1/ü.j5s", "./x/y.j5s", "\xff\xfe/v1/a.j5s", "a.b/c.d/e.j5s", "foo/v1/"}
 
 func (g *gen) op(name, src string) string {
 	return "walk " + vh.Hex([]byte(name)) + " " + vh.Hex([]byte(src))
